@@ -25,6 +25,7 @@ import z3
 class _State:
     def __init__(self):
         self.side = []  # side constraints: definitions of auxiliary variables (sqrt, exp, ...)
+        self.grad_model = False  # True: dual-number tangents follow torch's autograd tape: detach() and everything computed or written under torch.no_grad() carries no tangent
         self.congr = []  # Ackermann congruence constraints (only added to a query when the cheap attempt is not unsat)
         self.cnt = itertools.count()
         self.dual_n = 0  # >0: elements are Dual numbers with that many tangents
@@ -569,6 +570,20 @@ def _called_from_augmented_assignment():
     return False
 
 
+def _strip_tangents(a):
+    """object array -> same values without dual-number tangents"""
+    out = np.empty(a.shape, dtype=object)
+    fo, fi = out.reshape(-1), a.reshape(-1)
+    for i in range(fi.size):
+        fo[i] = fi[i].v if isinstance(fi[i], Dual) else fi[i]
+    return out
+
+
+def _untracked():
+    """grad model on and autograd off: results and stored values carry no tangent"""
+    return ST.grad_model and ST.dual_n > 0 and not torch.is_grad_enabled()
+
+
 class SymTensor:
     __array_priority__ = 1000
     requires_grad = False
@@ -581,6 +596,8 @@ class SymTensor:
     def __init__(self, a, isbool=None):
         if not (isinstance(a, np.ndarray) and a.dtype == object):
             a = to_obj(a)
+        if ST.grad_model and ST.dual_n > 0 and not torch.is_grad_enabled() and a.size and any(isinstance(x, Dual) for x in a.reshape(-1)):
+            a = _strip_tangents(a)  # (a view created under no_grad: a copy is made; none of the encoded code writes through it)
         self.a = a
         if isbool is None:
             flat = a.reshape(-1)
@@ -701,6 +718,8 @@ class SymTensor:
 
     def detach(self):
         # shares storage like torch's detach(); the copy carries no autograd-history model and does not require grad
+        if ST.grad_model and ST.dual_n > 0:
+            return SymTensor(_strip_tangents(self.a), self.isbool)  # values only: no derivative flows through detach()
         return SymTensor(self.a, self.isbool)
 
     def detach_(self):
@@ -965,6 +984,16 @@ class SymTensor:
     def __setitem__(self, idx, v):
         if isinstance(idx, SymTensor) and idx.isbool:
             vo = to_obj(v)
+            flat = [z3.simplify(x) if isinstance(x, z3.ExprRef) else x for x in idx.a.reshape(-1)]
+            if all(isinstance(x, (bool, np.bool_)) or z3.is_true(x) or z3.is_false(x) for x in flat):
+                # a mask of constants: ordinary boolean-mask assignment
+                mask = np.array([bool(x) if isinstance(x, (bool, np.bool_)) else z3.is_true(x) for x in flat], dtype=bool).reshape(idx.a.shape)
+                if _untracked():
+                    vo = _strip_tangents(vo)
+                if vo.ndim == 0:
+                    vo = vo[()]
+                self.a[mask] = vo
+                return
             if vo.ndim == 0 or ST.explorer is None:
                 # predicated assignment of a broadcast value: merge as ite
                 m = idx.a.reshape(idx.a.shape + (1,) * (self.a.ndim - idx.a.ndim))
@@ -974,6 +1003,8 @@ class SymTensor:
                 return
             idx = concretize_mask(idx)
         vo = to_obj(v)
+        if _untracked():
+            vo = _strip_tangents(vo)  # an in-place write under no_grad stores values only
         if vo.ndim == 0:
             vo = vo[()]  # a 0-d object array would otherwise be stored as an array inside the element
         self.a[_conv_index(idx)] = vo
@@ -1571,6 +1602,12 @@ def _einsum(eq, *ops):
     if len(ops) == 1 and isinstance(ops[0], (list, tuple)):
         ops = ops[0]
     return SymTensor(np.einsum(eq, *[to_obj(o) for o in ops], optimize=False))
+
+
+@implements(torch.lerp)
+def _h_lerp(a, b, weight):
+    # torch.lerp(a, b, w) = a + w * (b - a)
+    return a + (b - a) * weight
 
 
 @implements(torch.where)
